@@ -184,6 +184,8 @@ type c09world struct {
 	// raw peers (c09recv.go): their open connections in order of establishment, next serial number
 	raws    map[int][]*c09raw
 	rawNext map[int]int
+	// connections to the survivor's address that say nothing (c09inbound.go)
+	stalled []net.Conn
 }
 
 func (w *c09world) tag(s string) { w.tags[s] = true }
@@ -433,6 +435,9 @@ func (w *c09world) close() {
 			}
 		}
 		w.closeRaws()
+		for _, cn := range w.stalled {
+			cn.Close()
+		}
 		for _, v := range w.victims {
 			w.stop(v)
 			if v.proxy != nil {
@@ -1263,6 +1268,10 @@ func c09exec(c *h.Ctx, cs *h.Case) {
 			if ok && err == nil {
 				obs = w.send(tk[2], dests, n)
 			}
+		case len(tk) == 3 && tk[1] == "stall":
+			obs = w.stall(tk[2])
+		case len(tk) == 4 && tk[1] == "inbound":
+			obs = w.inbound(tk[2], tk[3])
 		case len(tk) == 4 && tk[1] == "rawconn":
 			obs = w.rawConn(tk[2], tk[3])
 		case len(tk) == 5 && tk[1] == "rawev":
